@@ -233,9 +233,13 @@ def in_known_class(doc, kind, opts):
 def shape_sweep():
     """one member per document: every position x every inner shape the option passes treat specially"""
     defs = {"Tag": {"type": "string", "minLength": 3}, "Lim": {"type": "integer", "minimum": 1, "maximum": 5},
+            "Zero": {"type": "integer", "minimum": 0}, "Ratio": {"type": "number", "exclusiveMinimum": 0, "maximum": 1},
+            "Debt": {"type": "integer", "maximum": 0}, "Blank": {"type": "string", "minLength": 0, "maxLength": 0},
             "Obj": {"type": "object", "properties": {"v": {"type": "integer"}}, "required": ["v"]}}
     inner = {
         "ref-scalar": {"$ref": "#/definitions/Tag"}, "ref-int": {"$ref": "#/definitions/Lim"}, "ref-object": {"$ref": "#/definitions/Obj"},
+        "ref-zero": {"$ref": "#/definitions/Zero"}, "ref-ratio": {"$ref": "#/definitions/Ratio"}, "ref-debt": {"$ref": "#/definitions/Debt"},
+        "ref-blank": {"$ref": "#/definitions/Blank"},
         "inline": {"type": "string", "maxLength": 2},
         "same-type-nullable": {"anyOf": [{"type": "string"}, {"type": ["string", "null"]}]},
         "int-nullable-int": {"anyOf": [{"type": "integer"}, {"type": ["integer", "null"], "format": "int64"}]},
@@ -250,6 +254,27 @@ def shape_sweep():
                 if req:
                     d["required"] = ["m"]
                 yield f"{iname}/{pos}/{'req' if req else 'opt'}", d
+
+
+def twin_sweep():
+    """two definitions that are the same except for one aspect, both used by the root: what --reuse-model may and may not merge"""
+    base = {"type": "object", "properties": {"x": {"type": "integer"}, "y": {"type": "string"}}, "required": ["x"]}
+    variants = {
+        "closed": dict(base, additionalProperties=False), "open": dict(base, additionalProperties=True),
+        "bound": {"type": "object", "properties": {"x": {"type": "integer", "minimum": 0}, "y": {"type": "string"}}, "required": ["x"]},
+        "req": dict(base, required=["x", "y"]), "dflt": {"type": "object", "properties": {"x": {"type": "integer"}, "y": {"type": "string", "default": "d"}}, "required": ["x"]},
+        "enum": {"type": "object", "properties": {"x": {"type": "integer"}, "y": {"type": "string", "enum": ["a", "b"]}}, "required": ["x"]},
+        "nullable": {"type": "object", "properties": {"x": {"type": ["integer", "null"]}, "y": {"type": "string"}}, "required": ["x"]},
+        "same": dict(base),
+    }
+    names = list(variants)
+    for i, a in enumerate(names):
+        for b in names[i + 1:] + ["plain"]:
+            vb = base if b == "plain" else variants[b]
+            for first, second in (((a, variants[a]), (b, vb)), ((b, vb), (a, variants[a]))):
+                doc = {"title": "Root", "type": "object", "definitions": {"P" + first[0].title(): first[1], "Q" + second[0].title(): second[1]},
+                       "properties": {"p": {"$ref": "#/definitions/P" + first[0].title()}, "q": {"$ref": "#/definitions/Q" + second[0].title()}}}
+                yield f"{first[0]}/{second[0]}", doc
 
 
 INTERACTING = [{"field_constraints": True, "collapse_root_models": True}, {"use_union_operator": True, "use_standard_collections": True},
@@ -280,6 +305,10 @@ def falsify(ctx):
 
     for h in ctx.hints:
         run(*h)
+    twins = list(twin_sweep())
+    for name, doc in twins:
+        for opts in ({"reuse_model": True}, {"reuse_model": True, "collapse_root_models": True}):
+            run(doc, V2, dict(opts))
     shapes = list(shape_sweep())
     for name, doc in shapes:
         for opts in INTERACTING if ctx.thorough else rng.sample(INTERACTING, 3):
